@@ -42,6 +42,12 @@ def gen(seed, idx, tier):
         faults.append({"kind": "refuse", "at": {"stage": "S", "step": rnd.randint(0, max(0, steps - 1)), "attempts": list(range(o["max_solve_retries"] + 3)), "iter": 0}})
     scn["faults"] = faults
     scn["meta"]["mode"] = mode
+    if rnd.random() < 0.2 and not o["skip_time"]:
+        # seeded from an adaptive run whose step had grown: the controller of the new run must
+        # start from ITS dt_init and respect ITS dt_max / adaptive flag
+        scn["seed_phase"] = {"dt_init": o["dt_init"], "dt_max": scen.r3(o["dt_init"] * rnd.choice([10.0, 50.0])), "steps": rnd.randint(4, 12), "window": 1}
+        if scn["drive"]["field"]["kind"] in ("ramp", "pw", "sin"):
+            scn["drive"]["field"] = {"kind": "const", "B": scn["drive"]["field"]["B"]}
     return scn
 
 
@@ -96,6 +102,34 @@ def post(sim, h):
 
 
 def run(scn):
+    import copy
+
+    from ..common import Discard
+    from ..engine import run_scenario
+
+    seed_sol = None
+    sim0 = None
+    if scn.get("seed_phase"):
+        sp = scn["seed_phase"]
+        s0 = copy.deepcopy(scn)
+        s0.pop("seed_phase")
+        s0["faults"] = []
+        s0["options"].update(adaptive=True, dt_init=sp["dt_init"], dt_max=sp["dt_max"], adaptive_window=sp["window"], skip_time=0.0, solve_time=sp["dt_max"] * sp["steps"], max_solve_retries=10, adaptive_time_step_multiplier=0.25)
+        s0["observer"] = {"output": {"path": "seed.h5", "absolute": True}}
+        s0["max_updates"] = 60
+        sim0, h0 = run_scenario(s0)
+        if h0.outcome != "solution":
+            sim0.cleanup()
+            raise Discard(f"seed run did not complete: {h0.outcome}")
+        seed_sol = h0.solution
+    try:
+        return _run(scn, seed_sol)
+    finally:
+        if sim0 is not None:
+            sim0.cleanup()
+
+
+def _run(scn, seed_sol):
     ck = C12TimeStep()
     return base.physics_run(
         scn,
@@ -104,6 +138,7 @@ def run(scn):
         lambda h: (scn["meta"].get("mode"), scn["options"]["adaptive_window"], ck.retries > 0, ck.dt_changes > 0),
         extra=lambda h, c: {"retries": ck.retries, "dt_changes": ck.dt_changes, "model_steps": ck.steps},
         post=post,
+        seed_solution=seed_sol,
     )
 
 
